@@ -51,7 +51,7 @@ typedef struct {
 } sthread;
 static sthread T[MAXT]; static int nT; static __thread int self = -1;
 static volatile int g_active; static int g_mode, g_pctDepth; static uint64_t g_steps, g_limit, g_hash, g_expected;
-static uint64_t g_changeAt[16]; static int g_spurious;
+static uint64_t g_changeAt[16]; static int g_spurious; static int g_lastPick = -1; static long g_samePick;
 static sched_result g_res;
 
 #define NOBJ 1024
@@ -111,6 +111,12 @@ static void pick_and_switch(int me)
     if (g_mode == SCHED_PCT) {
         for (int i = 0; i < g_pctDepth; i++) if (g_steps == g_changeAt[i] && me >= 0 && T[me].st == T_RUNNABLE) T[me].prio = i;    /* change point: demote the running thread */
         next = run[0]; for (int i = 1; i < nr; i++) if (T[run[i]].prio > T[next].prio) next = run[i];
+        /* bounded unfairness: code that polls in a loop (non-blocking calls) needs the other threads to run eventually; a thread that
+         * kept the processor for many consecutive points while others were runnable is demoted below everybody (still a legal schedule) */
+        if (next == g_lastPick && nr > 1) { if (++g_samePick > 400) { long lo = T[run[0]].prio; for (int i = 1; i < nr; i++) if (T[run[i]].prio < lo) lo = T[run[i]].prio; T[next].prio = lo - 1; g_samePick = 0;
+                next = run[0]; for (int i = 1; i < nr; i++) if (T[run[i]].prio > T[next].prio) next = run[i]; } }
+        else g_samePick = 0;
+        g_lastPick = next;
     } else next = run[rnd() % (uint64_t)nr];
     if (next == me) return;
     if (me >= 0 && T[me].st == T_RUNNABLE) g_res.preemptions++;
@@ -141,6 +147,7 @@ void sched_begin(uint64_t seed, int mode, int pct_depth, uint64_t expected_len, 
     nT = 1; self = 0; T[0].st = T_RUNNABLE; T[0].real = pthread_self(); sem_init(&T[0].sem, 0, 0); T[0].label = "main"; T[0].prio = 1000000;
     rng_s = mix(seed) | 1; g_mode = mode; g_pctDepth = pct_depth > 16 ? 16 : pct_depth; g_steps = 0; g_limit = step_limit; g_hash = 1469598103934665603ULL; g_expected = expected_len ? expected_len : 200; g_nextObjId = 1; g_spurious = spurious_permille;
     for (int i = 0; i < g_pctDepth; i++) g_changeAt[i] = 1 + rnd() % g_expected;
+    g_lastPick = -1; g_samePick = 0;
     g_active = 1;
 }
 void sched_end(sched_result* out)
